@@ -384,6 +384,10 @@ fn run_once(c: &FCase) -> FOut {
     let fixed_ptr = unsafe { arena.as_mut_ptr().add(G) };
     let mut sibling_check: Option<BytesMut> = None;
     let range_viol = Cell::new(false);
+    // entries of the IoSlice array BEHIND the dst slice handed to chunks_vectored must stay what they were
+    let dst_viol = Cell::new(false);
+    static SENT: [u8; 3] = [0xE1, 0xE3, 0xE5];
+    let sent_ok = |s: &std::io::IoSlice| s.as_ptr() == SENT.as_ptr() && s.len() == 3;
     // taint oracle for out-of-bounds READS: every byte the liars ever hand out is an odd value <= 0x8f (or comes from the
     // honest helper slices); a result byte such as the allocator's guard (0xa5) or poison (0xdd) value proves that the
     // crate read memory no slice covered
@@ -442,10 +446,18 @@ fn run_once(c: &FCase) -> FOut {
             #[cfg(feature = "bstd")]
             18 => {
                 let l = liar(false);
-                let mut dst = [std::io::IoSlice::new(&[]); 4];
-                let c = l.chunks_vectored(&mut dst[..k % 5]);
+                let mut dst = [std::io::IoSlice::new(&SENT); 12];
+                let want = k % 5;
+                let c = std::panic::catch_unwind(std::panic::AssertUnwindSafe(|| l.chunks_vectored(&mut dst[..want])));
+                if dst[want..].iter().any(|s| !sent_ok(s)) {
+                    dst_viol.set(true);
+                }
+                let c = match c {
+                    Ok(c) => c,
+                    Err(e) => std::panic::resume_unwind(e),
+                };
                 let mut total = 0usize;
-                for s in dst.iter().take(c.min(4)) {
+                for s in dst.iter().take(c.min(want)) {
                     total += s.iter().map(|&b| b as usize).sum::<usize>();
                 }
                 let _ = total;
@@ -454,11 +466,18 @@ fn run_once(c: &FCase) -> FOut {
             #[cfg(feature = "bstd")]
             20 => {
                 let t = liar(true).take(k);
-                let mut dst = [std::io::IoSlice::new(&[]); 20];
+                let mut dst = [std::io::IoSlice::new(&SENT); 40];
                 let want = [0usize, 1, 2, 3, 16, 17, 20][n % 7];
-                let c = t.chunks_vectored(&mut dst[..want]);
+                let c = std::panic::catch_unwind(std::panic::AssertUnwindSafe(|| t.chunks_vectored(&mut dst[..want])));
+                if dst[want..].iter().any(|s| !sent_ok(s)) {
+                    dst_viol.set(true);
+                }
+                let c = match c {
+                    Ok(c) => c,
+                    Err(e) => std::panic::resume_unwind(e),
+                };
                 let mut total = 0usize;
-                for s in dst.iter().take(c.min(20)) {
+                for s in dst.iter().take(c.min(want)) {
                     total += s.iter().map(|&b| b as usize).sum::<usize>();
                 }
                 let _ = total;
@@ -475,9 +494,17 @@ fn run_once(c: &FCase) -> FOut {
             #[cfg(feature = "bstd")]
             25 => {
                 let mut ch = liar(true).chain(liar(false));
-                let mut dst = [std::io::IoSlice::new(&[]); 8];
-                let c = ch.chunks_vectored(&mut dst[..k % 9]);
-                let _ = dst.iter().take(c.min(8)).map(|s| s.len()).sum::<usize>();
+                let mut dst = [std::io::IoSlice::new(&SENT); 28];
+                let want = k % 9;
+                let c = std::panic::catch_unwind(std::panic::AssertUnwindSafe(|| ch.chunks_vectored(&mut dst[..want])));
+                if dst[want..].iter().any(|s| !sent_ok(s)) {
+                    dst_viol.set(true);
+                }
+                let c = match c {
+                    Ok(c) => c,
+                    Err(e) => std::panic::resume_unwind(e),
+                };
+                let _ = dst.iter().take(c.min(want)).map(|s| s.len()).sum::<usize>();
                 ch.advance(k);
                 let _ = ch.chunk().len();
             }
@@ -691,6 +718,9 @@ fn run_once(c: &FCase) -> FOut {
     let mut viol: Option<(String, String)> = None;
     if let Some(&b) = observed.borrow().iter().find(|&&b| b > 0x8f && b != 0xff) {
         viol = Some(("out-of-bounds-read(tainted result)".into(), format!("a returned value contains the byte {:#04x}, which no slice handed out by the user impl contains (allocator guard = 0xa5, poison = 0xdd): the crate read outside the slice it was given", b)));
+    }
+    if dst_viol.get() {
+        viol = Some(("out-of-bounds-write-behind-dst".into(), "chunks_vectored modified IoSlice entries behind the end of the dst slice it was given".into()));
     }
     if range_viol.get() {
         viol = Some(("view-outside-owner-memory".into(), "Bytes::from_owner returned a view that is not inside any slice the owner handed out (pointer of one as_ref call combined with the length of another)".into()));
